@@ -142,12 +142,35 @@ func runWatched(spec watchSpec, watchdog time.Duration) watchOut {
 	go func() { done <- cmd.Wait() }()
 	var out watchOut
 	timedOut := false
-	select {
-	case err = <-done:
-	case <-time.After(watchdog):
-		timedOut = true
-		cmd.Process.Kill()
-		<-done
+	// the watchdog runs from the moment the pool transaction has returned (progress marker
+	// written by the child): application start-up on a loaded machine is not charged to the
+	// watched transaction
+	startup := time.Now().Add(3 * time.Minute)
+	var deadline time.Time
+	tick := time.NewTicker(50 * time.Millisecond)
+	defer tick.Stop()
+loop:
+	for {
+		select {
+		case err = <-done:
+			break loop
+		case <-tick.C:
+			now := time.Now()
+			if deadline.IsZero() {
+				if _, serr := os.Stat(spec.Out); serr == nil {
+					deadline = now.Add(watchdog)
+				} else if now.After(startup) {
+					cmd.Process.Kill()
+					<-done
+					return watchOut{ChildErr: "watch child did not start within 3 minutes"}
+				}
+			} else if now.After(deadline) {
+				timedOut = true
+				cmd.Process.Kill()
+				<-done
+				break loop
+			}
+		}
 	}
 	if raw, rerr := os.ReadFile(spec.Out); rerr == nil {
 		json.Unmarshal(raw, &out)
